@@ -33,6 +33,7 @@ def endpoint(kind, clock, key=KEY, status=None):
 
 def arbitrary_state(c, now, npending=1):
     """semantic state an attacker datagram could disturb"""
+    proto.havoc_counters(c)
     proto.sym_window(c)
     c.last_recv_time = symreal('last_recv', lo=0, hi=now)
     c.seq_sending = SeqNum(symint('seq_sending', 0, 65535))
